@@ -21,6 +21,9 @@ package internal
 // reach the subscribers after a reload; every listener gets every announcement.
 //@   loop 1 iteration-ensures [first-record-holds-snapshot-values] vals[at_head(kvs[rangeindex + 1]).Key] == at_head(kvs[rangeindex + 1]).Val
 //@   loop 2 iteration-ensures [new-record-holds-snapshot-values] m[at_head(kvs[rangeindex + 1]).Key] == at_head(kvs[rangeindex + 1]).Val
+// (the announcement lists are built in arrays of their own: the snapshot passed in is not written)
+//@   loop 3 invariant (len(kvs) == 0 || remove.arr != kvs.arr) && forall(j, 0, len(kvs), kvs[j].Key == old(kvs[j].Key) && kvs[j].Val == old(kvs[j].Val))
+//@   loop 4 invariant (len(kvs) == 0 || add.arr != kvs.arr) && forall(j, 0, len(kvs), kvs[j].Key == old(kvs[j].Key) && kvs[j].Val == old(kvs[j].Val))
 //@   loop 3 iteration-ensures [vanished-or-changed-announced-deleted] (len(remove) == at_head(len(remove)) + 1) == (!has(m, k) || m[k] != v) && (len(remove) == at_head(len(remove)) || len(remove) == at_head(len(remove)) + 1) && (len(remove) == at_head(len(remove)) + 1 ==> remove[at_head(len(remove))].Key == k && remove[at_head(len(remove))].Val == v)
 //@   loop 4 iteration-ensures [new-or-changed-announced-added] (len(add) == at_head(len(add)) + 1) == (!has(vals, k) || vals[k] != v) && (len(add) == at_head(len(add)) || len(add) == at_head(len(add)) + 1) && (len(add) == at_head(len(add)) + 1 ==> add[at_head(len(add))].Key == k && add[at_head(len(add))].Val == v)
 //@   loop 6 iteration-ensures [every-listener-told-of-the-addition] calls(l.OnAdd, kv) == 1 && calls(OnAdd) == 1
